@@ -390,6 +390,17 @@ def check_geometry_names(ctx, geo, c, prefix=''):
         wrong = [n for n in ns if len(n) != length]
         if wrong:
             ctx.violation(prefix + 'wrong-length:%s' % kind, '%s names %r, convention length %d' % (kind, wrong[:3], length), c)
+    # the nodes the columns are made of are nodes of the geometry, each under a name of its own (a generated name that
+    # is already some other node's leaves a column corner the geometry does not know, or knows as a different point)
+    used = {}
+    for col in geo.columnlist:
+        for n in col.node:
+            used[id(n)] = n
+    ctx.count('column_corner_nodes_looked_up', len(used))
+    stray = [n.name for n in used.values() if geo.node.get(n.name) is not n]
+    if stray:
+        ctx.violation(prefix + 'corner-node-name-taken-or-unknown', 'column corners %r are not the nodes the geometry holds under those names (%d node names, %d distinct among the corners)' % (
+            stray[:3], geo.num_nodes, len(set(n.name for n in used.values()))), c)
     # invertibility: expected (column, layer) per block from the documented order
     natm = [1, len(geo.columnlist), 0][geo.atmosphere_type]
     exp = []
